@@ -7,7 +7,7 @@ def parseWP (s : String) : WP :=
   { name := String.ofList l.dropLast, recursive := l.getLast? == some '+' }
 
 def parsePaths (s : String) : List WP := if s.isEmpty then [] else (s.splitOn ",").map parseWP
-def parseKind (s : String) : Kind := if s == "P" then .poll else .native
+def parseKind (s : String) : Kind := if s == "P" then .poll else if s == "Q" then .poll2 else .native
 
 def shapeCount (sh : String) : Nat := if sh == "s" || sh == "1" then 1 else if sh == "s1" || sh == "2" then 2 else 0
 
